@@ -170,6 +170,21 @@ impl Sys for Or {
             _ => "?".into(),
         }
     }
+    fn rust_type() -> &'static str {
+        "Orswot<u8, u8>"
+    }
+    fn rust_gen(c: Cmd, a: u8, _idx: usize) -> String {
+        match c.k {
+            ADD => format!("s.add({}, s.read_ctx().derive_add_ctx({}))", c.x, a),
+            ADD_ALL => format!("s.add_all(vec![0u8, 1u8], s.read_ctx().derive_add_ctx({}))", a),
+            RM_CONTAINS => format!("s.rm({x}, s.contains(&{x}).derive_rm_ctx())", x = c.x),
+            RM_READ => format!("s.rm({}, s.read().derive_rm_ctx())", c.x),
+            _ => "{ let r = s.read(); let mut ms: Vec<u8> = r.val.iter().cloned().collect(); ms.sort(); s.rm_all(ms, r.derive_rm_ctx()) }".to_string(),
+        }
+    }
+    fn rust_reads() -> &'static str {
+        "let mut v: Vec<(u8, VClock<u8>)> = s.iter().map(|c| (*c.val, c.rm_clock.clone())).collect(); v.sort_by_key(|e| e.0); format!(\"members+witnesses {:?} clock {:?}\", v, s.read_ctx().add_clock)"
+    }
     fn classes(c: Cmd) -> (Class, Class) {
         match c.k {
             ADD | RM_CONTAINS | RM_READ => (Class::Member, Class::None),
